@@ -875,7 +875,10 @@ def toplevel(theory, nsyms=2):
         b = p.sym("b", BOOL)
         p.leaf(BOOL, b, rel(x, y), m.Not(m.Equals(y, cs[1])),
                m.Or(m.Equals(x, cs[1]), rel(y, cs[0])),
-               m.Exists([x], m.Not(m.Equals(x, y))), m.ForAll([y], m.Or(rel(x, y), b)))
+               m.Exists([x], m.Not(m.Equals(x, y))), m.ForAll([y], m.Or(rel(x, y), b)),
+               # quantifiers that are reachable only through an ITE (Boolean branch, term-level condition)
+               m.Ite(b, m.Exists([x], m.Not(m.Equals(x, y))), rel(x, y)),
+               m.Equals(m.Ite(m.ForAll([y], rel(x, y)), x, y), cs[0]))
         p.op("and", [BOOL, BOOL], BOOL, lambda m, s, t: m.And(s, t))
         p.op("and3", [BOOL, BOOL, BOOL], BOOL, lambda m, s, t, r: m.And(s, t, r))
         return p
